@@ -814,8 +814,14 @@ func (w *Reconciler) handleTTLAfterFinished(
 		"ageSinceFinish", time.Since(rj.Status.Condition.Finished.FinishTimestamp.Time),
 	)
 
-	// Delete this job.
-	return w.client.DeleteJob(ctx, rj, metav1.DeleteOptions{})
+	// Delete this job, but only if it is still the version that the decision was
+	// based on, since the cached Job could be stale.
+	return w.client.DeleteJob(ctx, rj, metav1.DeleteOptions{
+		Preconditions: &metav1.Preconditions{
+			UID:             &rj.UID,
+			ResourceVersion: &rj.ResourceVersion,
+		},
+	})
 }
 
 // handleFinishFinalizer deletes dependent objects if it is due to be deleted.
